@@ -108,6 +108,68 @@ pub fn run_names(_args: &[String]) {
     emit(&json!({"summary": true, "cases": cases.len(), "executions": execs, "failures": nfail, "dontcare": skipped}));
 }
 
+/// `vh idlwords`: field names / enum elements / member names, character class by character class (MC_IdlWords)
+pub fn run_words(_args: &[String]) {
+    let cases = read_cases();
+    let mut nfail = 0;
+    let mut execs = 0;
+    // representatives per class, rotated
+    let rep = |cl: &str, k: usize| -> char {
+        match cl {
+            "l" => ['a', 'q', 'z', 'm'][k % 4],
+            "U" => ['B', 'Q', 'Z', 'A'][k % 4],
+            "d" => ['7', '0', '9'][k % 3],
+            "_" => '_',
+            _ => ['-', '.', '\u{e9}', '$', '\u{430}'][k % 5],
+        }
+    };
+    for (i, c) in cases.iter().enumerate() {
+        let classes: Vec<&str> = c["w"].as_array().unwrap().iter().map(|x| x.as_str().unwrap()).collect();
+        let fieldv = c["field"].as_str().unwrap();
+        let memberv = c["member"].as_str().unwrap();
+        for variant in 0..2 {
+            let word: String = classes.iter().enumerate().map(|(k, cl)| rep(cl, k + variant * 3 + i)).collect();
+            // the word in every position its rule governs
+            let texts: Vec<(&str, &str, String)> = vec![
+                ("field", fieldv, format!("interface a.b\nmethod M({}: int) -> ()\n", word)),
+                ("field", fieldv, format!("interface a.b\nmethod M() -> ({}: int)\n", word)),
+                ("field", fieldv, format!("interface a.b\ntype T (x: int, {}: ?string)\n", word)),
+                ("field", fieldv, format!("interface a.b\nerror E ({}: bool)\n", word)),
+                ("field", fieldv, format!("interface a.b\ntype T ({}, other)\n", word)),
+                ("field", fieldv, format!("interface a.b\ntype T (x: (other, {}))\n", word)),
+                ("member", memberv, format!("interface a.b\ntype {} (x: int)\n", word)),
+                ("member", memberv, format!("interface a.b\nmethod {}() -> ()\n", word)),
+                ("member", memberv, format!("interface a.b\nerror {} ()\n", word)),
+                ("member", memberv, format!("interface a.b\ntype T1 (x: int)\nmethod M(a: {}) -> ()\n", word)),
+            ];
+            for (k, (which, want, text)) in texts.iter().enumerate() {
+                // a reference to an undefined type is rejected for another reason: only the lexical rule is judged there
+                let want: &str = if k == 9 { if *want == "accept" { "dontcare" } else { "reject" } } else { want };
+                if want == "dontcare" {
+                    continue;
+                }
+                execs += 1;
+                let v = parse_verdict(text);
+                let got = match v { Verdict::Accept => "accept", Verdict::Panic => "panic", _ => "reject" };
+                let mut err = None;
+                if got != want {
+                    err = Some(format!("{} name {:?} in {:?}: parser says {}, the word rules say {}", which, word, text, got, want));
+                } else if let Err(d) = check_diagnostic(text, &v) {
+                    err = Some(format!("{} name {:?}: {}", which, word, d));
+                }
+                if let Some(d) = err {
+                    nfail += 1;
+                    if nfail <= 40 {
+                        emit(&json!({"fail": true, "case": i, "variant": format!("{}-position-{}", which, k), "detail": d, "sig": format!("{} classes={}", which, classes.join("")), "input": c, "text": text}));
+                    }
+                    break;
+                }
+            }
+        }
+    }
+    emit(&json!({"summary": true, "cases": cases.len(), "executions": execs, "failures": nfail}));
+}
+
 /// render a token string; `style` selects blanks / line ends / extra comment lines
 pub fn render_tokens(toks: &[&str], style: usize) -> String {
     let sp = [" ", "  ", "\t", " \u{00a0}"][style % 4];
